@@ -48,7 +48,7 @@ def gate_tables(g: dict):
     for nd, _d, _p in iter_nodes(g):
         if nd["kind"] in ("route", "ifelse"):
             gates[nd["name"]] = nd
-            tg = nd["targets"] if nd["kind"] == "route" else [nd["when_true"], nd["when_false"]]
+            tg = gen.gate_targets(nd)
             for t in tg:
                 if t != "@END":
                     ctrl.setdefault(t, []).append(nd["name"])
@@ -105,7 +105,7 @@ def check_routing(rt, g: dict) -> tuple[list, dict]:
             if h.get("nk") == "gate":
                 nd = gates.get(n)
                 if nd is not None:
-                    tg = nd["targets"] if nd["kind"] == "route" else [nd["when_true"], nd["when_false"]]
+                    tg = gen.gate_targets(nd)
                     over = [t for t in tg if t in inflight.get(R, set())]
                     if over:
                         viol.append(("gate_entered_while_target_in_flight", {"gate": n, "targets_in_flight": over}))
@@ -121,7 +121,7 @@ def check_routing(rt, g: dict) -> tuple[list, dict]:
                 if nd is not None:
                     d = norm_decision(nd, h["v"])
                     decisions.setdefault(R, {})[h["n"]] = d
-                    tg = [t for t in (nd["targets"] if nd["kind"] == "route" else [nd["when_true"], nd["when_false"]]) if t != "@END"]
+                    tg = [t for t in gen.gate_targets(nd) if t != "@END"]
                     if any(t not in d for t in tg):
                         probes["excluded_target"] += 1
             else:
@@ -138,7 +138,7 @@ def check_routing(rt, g: dict) -> tuple[list, dict]:
                 nd = gates.get(G)
                 if nd is None:
                     continue
-                tg = nd["targets"] if nd["kind"] == "route" else [nd["when_true"], nd["when_false"]]
+                tg = gen.gate_targets(nd)
                 both = [t for t in tg if t in ready]
                 if both:
                     viol.append(("target_scheduled_in_the_step_of_its_gate", {"gate": G, "targets": both}))
